@@ -1052,6 +1052,11 @@ func writeEvidence(id string, ev *evidence) {
 	if err := os.WriteFile(filepath.Join(verifDir, "evidence", id+".json"), b, 0o644); err != nil {
 		die(2, "evidence: %v", err)
 	}
+	if ev.Tier == "thorough" {
+		// the next quick run rewrites evidence/<id>.json; the last thorough run stays readable next to it
+		os.MkdirAll(filepath.Join(verifDir, "evidence_thorough"), 0o755)
+		os.WriteFile(filepath.Join(verifDir, "evidence_thorough", id+".json"), b, 0o644)
+	}
 }
 
 // ---------------------------------------------------------------------------
